@@ -241,6 +241,68 @@ func mutations(r *rand.Rand, leaves [][]byte, i int, p *merkle.Proof, other *mer
 		m.leaf = cp(other.LeafHash)
 		out = append(out, m)
 	}
+	// malformed aunts: wrong lengths, and concatenations of genuine node hashes that make a
+	// hash over (prefix || aunt) alone reproduce an inner node when the other operand is missing
+	{
+		for _, ln := range []int{0, 1, 31, 33, 64} {
+			m := base(fmt.Sprintf("aunt of %d bytes", ln))
+			x := make([]byte, ln)
+			r.Read(x)
+			if len(m.aunts) == 0 {
+				m.aunts = [][]byte{x}
+			} else {
+				m.aunts[r.Intn(len(m.aunts))] = x
+			}
+			out = append(out, m)
+		}
+	}
+	if n >= 2 {
+		k := int(ref.MerkleRootSplit(len(leaves)))
+		l, rr := ref.MerkleRoot(leaves[:k]), ref.MerkleRoot(leaves[k:])
+		lr := append(cp(l), rr...)
+		foreign := make([]byte, 1+r.Intn(40))
+		r.Read(foreign)
+		for v := 0; v < 6; v++ {
+			m := base("aunts = [.., L||R of the root]")
+			switch v {
+			case 0: // the single aunt under the root, path otherwise missing
+				m.aunts = [][]byte{cp(lr)}
+			case 1: // genuine lower aunts dropped at random, concatenation on top
+				m.aunts = append(cps(p.Aunts), cp(lr))
+			case 2:
+				if len(p.Aunts) > 0 {
+					m.aunts = append(cps(p.Aunts[:len(p.Aunts)-1]), cp(lr))
+				} else {
+					m.aunts = [][]byte{cp(lr)}
+				}
+			case 3: // foreign item at any index of this tree
+				m.aunts = [][]byte{cp(lr)}
+				m.item = cp(foreign)
+				m.leaf = ref.LeafHash(m.item)
+				m.index = r.Int63n(n)
+			case 4: // too many aunts below it
+				x := make([]byte, 32)
+				r.Read(x)
+				m.aunts = [][]byte{x, x, x, x, x, x, x, x, cp(lr)}
+				m.item = cp(foreign)
+				m.leaf = ref.LeafHash(m.item)
+			case 5: // R||L
+				m.aunts = [][]byte{append(cp(rr), l...)}
+			}
+			out = append(out, m)
+		}
+		// index == total with the genuine path of the last leaf (and one beyond)
+		last := int(n) - 1
+		pl := ref.MerklePath(leaves, last)
+		for _, d := range []int64{0, 1} {
+			m := base(fmt.Sprintf("last leaf's proof at index total%+d", d))
+			m.item = cp(leaves[last])
+			m.leaf = ref.LeafHash(m.item)
+			m.aunts = cps(pl)
+			m.index = n + d
+			out = append(out, m)
+		}
+	}
 	// inner node presented as a leaf (second-preimage shape)
 	if n >= 2 {
 		k := int(ref.MerkleRootSplit(len(leaves)))
